@@ -47,9 +47,9 @@ Print Assumptions C17_visitor_order.
 
 (* analyze_python_source = the visitor + the sibling check over imported_roots; and imported_roots misses
    no import statement of an accepted tree *)
-Theorem C17_source : forall sibling allow_print t,
-  source_viols sibling allow_print t = [] <->
-  visit allow_print false t = [] /\ forall r, In r (roots t) -> sibling r = false.
+Theorem C17_source : forall sibling local allow_print t,
+  source_viols sibling local allow_print t = [] <->
+  visit allow_print false t = [] /\ (forall r, In r (roots t) -> sibling r = false) /\ local = false.
 Proof. exact source_viols_nil. Qed.
 Print Assumptions C17_source.
 
@@ -128,8 +128,8 @@ Print Assumptions C17_file_only_path.
 Theorem C17_file_relative : forall resolve analyze shadow cwd pc tokens s,
   let r := scan 1 (tl tokens) in
   (2 <= length tokens)%nat -> known (sc_seen r) = true -> has_info (sc_seen r) = false -> sc_mode r = None ->
-  mem_str $"-i" (sc_seen r) = false -> mem_str $"-x" (sc_seen r) = false ->
-  nth_error tokens (sc_idx r) = Some s -> s <> dash -> is_abs s = false -> suffixb [47] cwd = false ->
+  mem_str $"-i" (sc_seen r) = false -> mem_str $"-x" (sc_seen r) = false -> mem_str $"-X" (sc_seen r) = false ->
+  nth_error tokens (sc_idx r) = Some s -> s <> dash -> shell_rewrites s = false -> is_abs s = false -> suffixb [47] cwd = false ->
   classify resolve analyze shadow (Some cwd) pc tokens =
   match resolve (cwd ++ [47] ++ s) with
   | None => PExn
@@ -147,10 +147,19 @@ Theorem C17_allow_sources : forall resolve analyze shadow cc pc t0 r0 rest,
    (sc_mode r = Some 109 /\ sc_arg r = Some $"calendar" /\ shadow (cwd_of cc pc) = false /\
     mem_str $"-i" (sc_seen r) = false) \/
    (sc_mode r = None /\ mem_str $"-i" (sc_seen r) = false /\ mem_str $"-x" (sc_seen r) = false /\
-    exists s p, nth_error tokens (sc_idx r) = Some s /\ s <> dash /\
+    exists s p, nth_error tokens (sc_idx r) = Some s /\ s <> dash /\ shell_rewrites s = false /\
                 resolve (pjoin (cwd_of cc pc) s) = Some p /\ analyze p = true)).
 Proof. exact allow_inv. Qed.
 Print Assumptions C17_allow_sources.
+
+(* repairs 6fb4634 / 1872043: an approved script word is not one bash rewrites (~, $, `, {, *, ?, [) - see
+   C17_allow_sources - and -X pycache_prefix / -X perf among python's own options is never approved *)
+Theorem C17_xoption_asks : forall resolve analyze shadow cc pc t0 r0 rest,
+  let r := scan 1 (r0 :: rest) in
+  classify resolve analyze shadow cc pc (t0 :: r0 :: rest) = PAllow -> has_info (sc_seen r) = false ->
+  mem_str $"-X" (sc_seen r) = true -> wfx (sc_idx r - 1) (r0 :: rest) = false.
+Proof. exact xoption_asks. Qed.
+Print Assumptions C17_xoption_asks.
 
 (* ------------------------------------------------------------------ non-vacuity *)
 
@@ -168,8 +177,9 @@ Proof.
   split; [vm_compute; reflexivity|]. split; [|vm_compute; reflexivity]. intros d Hd Hk. cbn in Hd.
   repeat (destruct Hd as [<-|Hd]; [try reflexivity; discriminate Hk|]). destruct Hd.
 Qed.
-Example ex_tree_shadowed : source_viols (fun r => str_eqb r $"json") true ex_tree = [(KShadow, $"json")].
-Proof. vm_compute. reflexivity. Qed.
+Example ex_tree_shadowed : source_viols (fun r => str_eqb r $"json") false true ex_tree = [(KShadow, $"json")] /\
+  source_viols (fun _ => false) true true ex_tree = [(KShadow, [])].
+Proof. vm_compute. split; reflexivity. Qed.
 (* `f = open` (a Load of the name, not a call) and `json.codecs` are now reported; `open = 1` (Store) is not *)
 Example ex_alias :
   visit true false (T $"Assign" [] [] [($"targets", T $"Name" [($"id", $"f")] [] [($"ctx", T $"Store" [] [] [])]);
@@ -190,5 +200,11 @@ Example ex_former_witnesses :
   w_classify [$"python"; $"-u"; $"evil.py"; $"--version"] = PAsk /\
   w_classify [$"python"; $"-c"; $"1"; $"-h"] = PAsk /\ w_classify [$"python"; $"-Bm"; $"calendar"] = PAllow /\
   w_classify [$"python"; $"-BV"] = PAllow /\
-  py_cmdline [$"python"; $"-u"; $"s.py"; $"--version"] = RFile 2 fl0.
+  py_cmdline [$"python"; $"-u"; $"s.py"; $"--version"] = RFile 2 fl0 /\
+  w_classify [$"python"; $"-X"; $"pycache_prefix=/c"; $"s.py"] = PAsk /\ w_classify [$"python"; $"-BXperf"; $"s.py"] = PAsk /\
+  w_classify [$"python"; $"-X"; $"dev"; $"s.py"] = PAllow /\ w_classify [$"python"; $"-X"; $"perf"; $"-V"] = PAllow /\
+  classify w_resolve (fun _ => true) w_shadow (Some $"/w") $"/" [$"python"; $"~/s.py"] = PAsk /\
+  classify w_resolve (fun _ => true) w_shadow (Some $"/w") $"/" [$"python"; $"$HOME/s.py"] = PAsk /\
+  classify w_resolve (fun _ => true) w_shadow (Some $"/w") $"/" [$"python"; $"{a,s}.py"] = PAsk /\
+  classify w_resolve (fun _ => true) w_shadow (Some $"/w") $"/" [$"python"; $"s.py"] = PAllow.
 Proof. vm_compute. repeat split. Qed.
